@@ -465,4 +465,85 @@ example : compileXP demoRedeclare = none ∧ (compileXBody demoRedeclare).isSome
     (compileXP { decls := [], body := .loop none (.seq (.define [(0, .lit 1)]) (.seq (.define [(1, .lit 2)]) .brk)) }).isSome = true := by
   decide
 
+/-! `switch tag { case v: … default: … }` (`Stmt.switch` with the clause list `swCase … (swDefault … | skip)`;
+    part of `compileX` / `execX`, covered by `compile_correct_x`). The code is what visiter.go emits, not an
+    if/else chain: the tag into a temporary that stays allocated, a jump table (`rset r v; je rt r <clause>`
+    per `case`, the constant's temporary released each time, then one jump to `default` or to the end), the
+    clause bodies in textual order, each followed by a jump to the end. Semantics: the tag is evaluated
+    once, the first matching clause runs; `break` ends the switch (Go), `continue` is the enclosing loop's. -/
+theorem stmt_simulation_switch (env : Nat → Nat → Nat) (w : Nat) (hw : 0 < w) (fuel : Nat) (ls : List Loc)
+    (tag : Expr) (cs : Stmt) : StmtOKX env w ls fuel (.switch tag cs) :=
+  stmtOKX_all env w hw ls fuel (.switch tag cs)
+
+theorem stmt_simulation_switch_timeout (env : Nat → Nat → Nat) (w : Nat) (hw : 0 < w) (fuel : Nat) (ls : List Loc)
+    (tag : Expr) (cs : Stmt) : StmtTOX env w ls fuel (.switch tag cs) :=
+  stmtTOX_all env w hw ls fuel (.switch tag cs)
+
+/-- a loop around a switch: `default`, a plain clause, a clause that ends in `continue`, and a `break`
+    of the loop outside the switch. Go writes 0, 11, 3, 9. -/
+def demoSwitch : Prog :=
+  { decls := [false],
+    body := .seq (.tassign [(0, .lit 0)])
+      (.seq (.loop none
+          (.seq (.ifThen (.eq (.var 0) (.lit 4)) (.seq .brk .skip))
+          (.seq (.switch (.var 0)
+              (.swCase 1 (.seq (.iowrite 0 (.lit 11)) .skip)
+              (.swCase 2 (.seq (.inc 0) (.seq .cont .skip))
+              (.swDefault (.seq (.iowrite 0 (.var 0)) .skip)))))
+          (.seq (.inc 0) .skip))))
+      (.seq (.iowrite 0 (.lit 9)) .skip)) }
+
+example : scopedProg demoSwitch = true ∧ noStray demoSwitch.body = true ∧ wfProg demoSwitch = true ∧
+    (compileXP demoSwitch).isSome = true := by decide
+
+example : runCode (fun _ _ => 0) 8 ((compileXP demoSwitch).getD []) 300
+    = ([(0, 0), (0, 11), (0, 3), (0, 9)], true) := by decide
+
+example (env : Nat → Nat → Nat) (fuel : Nat) :
+    ∃ n, (runCode env 8 ((compileXP demoSwitch).getD []) n).1 = (goEvalX env 8 fuel demoSwitch).1 := by
+  have hc : compileXP demoSwitch = some ((compileXP demoSwitch).getD []) := by decide
+  obtain ⟨n, h, _⟩ := compile_correct_x env 8 fuel demoSwitch _ (by decide) (by decide) (by decide) hc
+  exact ⟨n, h⟩
+
+/-- `break` directly in a clause ends the switch, not the loop around it (Go): 0, 2, 9.
+    (/repo before 5d0e719 emitted a jump to the end of the loop: 0, 9 — corpus/C12/17-break-in-switch.json.) -/
+def demoSwitchBreak : Prog :=
+  { decls := [false],
+    body := .seq (.tassign [(0, .lit 0)])
+      (.seq (.loop none
+          (.seq (.ifThen (.eq (.var 0) (.lit 3)) (.seq .brk .skip))
+          (.seq (.switch (.var 0)
+              (.swCase 1 (.seq .brk .skip)
+              (.swDefault (.seq (.iowrite 0 (.var 0)) .skip))))
+          (.seq (.inc 0) .skip))))
+      (.seq (.iowrite 0 (.lit 9)) .skip)) }
+
+example : scopedProg demoSwitchBreak = true ∧ noStray demoSwitchBreak.body = true ∧
+    runCode (fun _ _ => 0) 8 ((compileXP demoSwitchBreak).getD []) 300 = ([(0, 0), (0, 2), (0, 9)], true) := by decide
+
+/-- `break` in a switch that is in no loop (accepted since /repo 5d0e719; `noStray` allows it): the rest of
+    the clause is skipped. Go writes 1, 9. -/
+def demoSwitchBreakNoLoop : Prog :=
+  { decls := [false],
+    body := .seq (.tassign [(0, .lit 2)])
+      (.seq (.switch (.var 0)
+          (.swCase 2 (.seq (.iowrite 0 (.lit 1)) (.seq (.ifThen (.eq (.var 0) (.lit 2)) (.seq .brk .skip))
+            (.seq (.iowrite 0 (.lit 7)) .skip)))
+          (.swDefault (.seq (.iowrite 0 (.lit 8)) .skip))))
+      (.seq (.iowrite 0 (.lit 9)) .skip)) }
+
+example : scopedProg demoSwitchBreakNoLoop = true ∧ noStray demoSwitchBreakNoLoop.body = true ∧
+    runCode (fun _ _ => 0) 8 ((compileXP demoSwitchBreakNoLoop).getD []) 100 = ([(0, 1), (0, 9)], true) := by decide
+
+example (env : Nat → Nat → Nat) (fuel : Nat) :
+    ∃ n, runCode env 8 ((compileXP demoSwitchBreakNoLoop).getD []) n = goEvalX env 8 fuel demoSwitchBreakNoLoop := by
+  have hc : compileXP demoSwitchBreakNoLoop = some ((compileXP demoSwitchBreakNoLoop).getD []) := by decide
+  obtain ⟨n, h1, h2⟩ := compile_correct_x env 8 fuel demoSwitchBreakNoLoop _ (by decide) (by decide) (by decide) hc
+  have hd : (goEvalX env 8 fuel demoSwitchBreakNoLoop).2 = true := by
+    rcases execX_status env 8 fuel demoSwitchBreakNoLoop.body {} (by decide) with h | h
+    · simp [goEvalX, h]
+    · exfalso
+      simp [demoSwitchBreakNoLoop, execX, swSelect, evalE, evalC, evalEs, assignAll, upd] at h
+  exact ⟨n, Prod.ext h1 (by rw [h2 hd, hd])⟩
+
 end BMV.Props.C12
